@@ -425,12 +425,22 @@ fn make_inner(prop: &str, tier: Tier, seed: u64) -> Scenario {
             let mut g = Rng::new(seed);
             // second stream: later additions to the plan do not change what a seed generated before
             let mut g2 = Rng::new(seed ^ 0xC15_0002);
+            let mut stamp_extra = 0u32;
             let pn = g.range(3, 7) as usize;
             let pool = gen_pool(&mut g, pn);
             let mut stamp = 0u32;
             let mut val = |g: &mut Rng| { stamp += 1; VSpec { len: *g.pick(&[4u32, 9, 40, 1332, 1400, 5000]), stamp } };
             let n_init = g.range(1, pool.len() as u64 - 1) as usize;
             let initial: Vec<(K, VSpec)> = pool[..n_init].iter().map(|k| (K(*k), val(&mut g))).collect();
+            // a third of the plans start with cold caches and more data (several leaves): reads and
+            // proofs of the tasks then miss the caches concurrently
+            let cold = g2.chance(1, 3);
+            let mut initial = initial;
+            let mut rpool = pool.clone();
+            if cold {
+                let ne = 10 + g2.usize(24); let extra = gen_pool(&mut g2, ne);
+                for k in extra { if !rpool.contains(&k) { stamp_extra += 1; initial.push((K(k), VSpec { len: *g2.pick(&[700u32, 1000, 1331, 1332, 40]), stamp: 9_000_000 + stamp_extra })); rpool.push(k); } }
+            }
             let nw = g.range(1, 2) as usize;
             let nr = g.range(1, 3) as usize;
             let mut opts = gen_opts(&mut g, None, false);
@@ -454,13 +464,14 @@ fn make_inner(prop: &str, tier: Tier, seed: u64) -> Scenario {
             for _ in 0..nr {
                 let mut ops = Vec::new();
                 for _ in 0..g.range(1, 3) {
-                    let reads: Vec<K> = (0..g.range(1, 4)).map(|_| K(*g.pick(&pool))).collect();
-                    let proves: Vec<K> = (0..g.range(0, 2)).map(|_| K(*g.pick(&pool))).collect();
+                    let mut reads: Vec<K> = (0..g.range(1, 4)).map(|_| K(*g.pick(&pool))).collect();
+                    let mut proves: Vec<K> = (0..g.range(0, 2)).map(|_| K(*g.pick(&pool))).collect();
+                    if cold { for _ in 0..g2.range(1, 4) { reads.push(K(*g2.pick(&rpool))); proves.push(K(*g2.pick(&rpool))); } }
                     ops.push(crate::conc::ROp { reads, proves, hold: g.range(0, 4) as u32, helpers: if g2.chance(1, 3) { g2.range(1, 2) as u32 } else { 0 } });
                 }
                 readers.push(ops);
             }
-            let plan = crate::conc::ConcPlan { initial, writers, readers, initial_commits: g.range(1, 3) as u32 };
+            let plan = crate::conc::ConcPlan { initial, writers, readers, initial_commits: g.range(1, 3) as u32, cold };
             Scenario { property: "C15".into(), run_seed: seed, hasher: if g.chance(1, 5) { Hasher::Sha2 } else { Hasher::Blake3 }, opts, knobs: Knobs { seg_max_size: None, grow_pages: Some(16) }, probes: vec![], steps: vec![], faults: vec![],
                 sched: if g.chance(1, 3) { Sched::Pct(g.range(1, 4) as usize) } else { Sched::Random }, sched_seed: g.next(), checks: Checks::default(), extra: json!({ "kind": "concurrent", "plan_conc": plan }) }
         }
